@@ -30,7 +30,7 @@ def FuncsOk (e : Bool) (fs : List (Str × Stmt)) : Prop :=
 
 /-- Facts relating the static context of a position and the dynamic context of `BashSem`. -/
 structure Stat (K : SCtx) (k : Ctx) (sub : Bool) : Prop where
-  kt : k.inTrap = false
+  kt : k.inTrap = false ∧ k.inExit = false
   kign : K.ign = true → k.ign = true
   knign : K.e = true → K.ign = false → K.unk = false → k.ign = false
   kfn : K.fn = true → k.inFunc = true
